@@ -32,6 +32,9 @@ def decode_results(e):
     return [x for x in walk(e) if isinstance(x, Op) and x.op.startswith("call:") and x.op[5:] in DECODERS]
 
 
+# operations on an open file / its bytes whose success does not depend on what the file contains
+FILE_METHODS_OK = {"read", "readinto", "readall", "read1", "close", "fileno", "seek", "tell", "__enter__", "__exit__", "readable", "seekable"}
+CONTENT_BLIND_CALLS = ("os.", "io.", "stat.", "builtins.", "pathlib.", "contextlib.", "logging.", "warnings.")
 LISTING_CALLS = ("call:os.walk", "call:os.listdir", "call:os.scandir", "call:glob.glob", "call:glob.iglob")
 
 
@@ -111,6 +114,43 @@ def check_barriers(rep, fm):
                 okh = True
         rep.check(okh, rule, "%s: barrier catches Exception, reports on stderr only and continues with the next file" % where.split(".")[-1],
                   where, D.node, "per-file barrier is not 'except Exception: <stderr diagnostic>; continue' (%s)" % why, node=D.node)
+        # whatever is done with the opened file before the barrier must be unable to fail on the file's content
+        lo, hi = inner.events
+        for x in ev[lo:hi]:
+            if x.kind not in ("extcall", "methcall", "raise") or inner not in x.loops or fm.norm(x.guard) == FALSE:
+                continue
+            if any(inner in try_enter[exc].loops for exc in tries_covering(ev, x) if exc in try_enter):
+                continue
+            if x.kind == "raise":
+                terms_ = [x.guard]
+                name_ = "raise"
+            elif x.kind == "extcall":
+                name_ = x.data[0]
+                terms_ = list(x.data[1]) + [v_ for _, v_ in x.data[2]]
+            else:
+                name_ = x.data[1]
+                terms_ = [x.data[0]] + list(x.data[2]) + [v_ for _, v_ in x.data[3]]
+            if not any(isinstance(y, Op) and y.op == "file" for t_ in terms_ for y in walk(fm.norm(t_))):
+                continue
+            harmless = (x.kind == "methcall" and name_ in FILE_METHODS_OK) or \
+                       (x.kind == "extcall" and name_.startswith(CONTENT_BLIND_CALLS))
+            rep.check(harmless, rule, "%s:%s %s on the opened file cannot fail on its content" % (
+                where.split(".")[-1], getattr(x.node, "lineno", "?"), name_), x.func, x.node,
+                "%s is applied to the opened directory entry outside the per-file try/except: when it rejects the file's content "
+                "(e.g. a zero-length file) the whole run ends with a traceback instead of a stderr diagnostic" % name_, node=x.node)
+        # every file of the listing is processed: only a search (--id / --bmc-id) may end its loop early
+        searching = any(q_.endswith(("parsePelFromID", "parsePelFromBmcID", "deletePELFromPELId")) for q_ in D.stack)
+        if not searching:
+            def over_walk(L_):      # a loop over the (root, dirs, files) tuples themselves: "top directory only" ends it by design
+                it_ = fm.norm(L_.iter) if L_.iter is not None else None
+                while isinstance(it_, Op) and it_.op in ("sorted", "list", "iter", "reversed", "enumerate") and it_.args:
+                    it_ = it_.args[0]
+                return isinstance(it_, Op) and it_.op == "call:os.walk"
+            early = [s_ for L_ in file_loops if not over_walk(L_) for s_ in L_.stops if s_ != FALSE]
+            rep.check(not early, rule, "%s: the per-file loop visits every file (no early end)" % where.split(".")[-1], where, inner.node,
+                      "the per-file loop can end before all files were processed (it stops under %s, e.g. a lazily evaluated all()/any() "
+                      "or a break): files listed after the first failing one are silently skipped" % (repr(early[0])[:120] if early else ""),
+                      node=inner.node)
         if D.data[0] == PT + "parsePEL":
             a = D.data[1]
             rep.check(len(a) >= 3 and a[2] == Const(False), rule, "%s: directory modes decode with exit_on_error=False" % where.split(".")[-1],
